@@ -344,8 +344,9 @@ Section Observer.
           intros [Ez _]; apply Hn; now rewrite Ez. }
       intros E Ho. apply (IH _ _ _ _ _ _ Hn Hinv1 H1 E).
       unfold remove_session_sub in E1. destruct (nget (b_subs b) id) as [s|]; [|inversion E1; subst; exact Ho].
-      match type of E1 with (if ?c then _ else _) = _ => destruct c end; inversion E1; subst; [|exact Ho].
-      rewrite obs_app, Ho. cbn [app]. apply sme_none; [apply Hinv1|exact H1|cbn; auto 6].
+      match type of E1 with (if ?c then _ else _) = _ => destruct c end; inversion E1; subst;
+        rewrite ?obs_app, Ho; cbn [app]; rewrite !sme_none; try reflexivity;
+        first [apply Hinv1 | exact H1 | cbn; auto 6].
   Qed.
 
   Lemma remove_obs : forall b pg sid,
